@@ -55,6 +55,7 @@ import (
 	"unsafe"
 
 	"github.com/btcsuite/btcd/btcec/v2"
+	"github.com/btcsuite/btcd/chainhash/v2"
 	"github.com/btcsuite/btcd/txscript/v2"
 	"github.com/btcsuite/btcd/wire/v2"
 	"github.com/lightningnetwork/lnd/chainntnfs"
@@ -80,6 +81,10 @@ type verifC04Second struct {
 	Tx       *wire.MsgTx // spends HtlcOut of the commitment with input 0
 	HtlcOut  uint32
 	Incoming bool // incoming for the cheater (success tx)
+	// what the cheater needs to re-sign its own half when it aggregates
+	// several second-level spends into one transaction (anchor channels)
+	SignDetails *input.SignDetails
+	Preimage    [32]byte
 }
 
 type verifC04Case struct {
@@ -254,7 +259,7 @@ func (c *verifC04Case) snapshot() {
 				}
 				tx := o.SignedTimeoutTx.Copy()
 				snap.Second = append(snap.Second, verifC04Second{Tx: tx,
-					HtlcOut: tx.TxIn[0].PreviousOutPoint.Index})
+					HtlcOut: tx.TxIn[0].PreviousOutPoint.Index, SignDetails: o.SignDetails})
 			}
 			for _, in := range res.HtlcResolutions.IncomingHTLCs {
 				if in.SignedSuccessTx == nil {
@@ -280,7 +285,7 @@ func (c *verifC04Case) snapshot() {
 					w[3] = p[:]
 				}
 				snap.Second = append(snap.Second, verifC04Second{Tx: tx,
-					HtlcOut: idx, Incoming: true})
+					HtlcOut: idx, Incoming: true, SignDetails: in.SignDetails, Preimage: p})
 			}
 		})
 		fk.Close()
@@ -679,8 +684,107 @@ func (c *verifC04Case) secondLevel(ctx string, victim int, db *channeldb.DB,
 			return false
 		}
 	}
-	var spends []spend
+	// How the cheater broadcasts: one transaction per HTLC, or - where the
+	// second-level signatures are SINGLE|ANYONECANPAY (anchor and taproot
+	// channels) - several HTLCs of one lock time advanced by ONE
+	// aggregated transaction (input i pays output i), as lnd's own sweeper
+	// does. An aggregate is used only if the script interpreter accepts
+	// every one of its inputs (precondition, not a verdict).
+	type advSpend struct {
+		s   verifC04Second
+		tx  *wire.MsgTx
+		idx uint32
+	}
+	var advs []advSpend
 	for _, s := range adv {
+		advs = append(advs, advSpend{s: s, tx: s.Tx, idx: 0})
+	}
+	if len(adv) >= 2 && st.ChanType.HasAnchors() && !st.ChanType.IsTaproot() && c.r.Chance(2, 3) {
+		byLock := map[uint32][]int{}
+		var locks []uint32
+		for i, s := range adv {
+			if len(s.Tx.TxIn) != 1 || len(s.Tx.TxOut) != 1 || s.SignDetails == nil {
+				continue
+			}
+			if _, ok := byLock[s.Tx.LockTime]; !ok {
+				locks = append(locks, s.Tx.LockTime)
+			}
+			byLock[s.Tx.LockTime] = append(byLock[s.Tx.LockTime], i)
+		}
+		for _, lt := range locks {
+			members := byLock[lt]
+			if len(members) < 2 {
+				continue
+			}
+			// PRNG order of the members inside the aggregate
+			for i := len(members) - 1; i > 0; i-- {
+				j := c.r.Intn(i + 1)
+				members[i], members[j] = members[j], members[i]
+			}
+			agg := wire.NewMsgTx(adv[members[0]].Tx.Version)
+			agg.LockTime = lt
+			fetcher := txscript.NewMultiPrevOutFetcher(nil)
+			for _, m := range members {
+				in := *adv[m].Tx.TxIn[0]
+				agg.AddTxIn(&in)
+				out := *adv[m].Tx.TxOut[0]
+				agg.AddTxOut(&out)
+				fetcher.AddPrevOut(in.PreviousOutPoint, revokedTx.TxOut[adv[m].HtlcOut])
+			}
+			valid := true
+			// The peer's (victim's) signature is SINGLE|ANYONECANPAY and
+			// stays; the cheater signs its own half anew over the
+			// aggregate (SIGHASH_ALL), with lnd's own witness builders.
+			hc := txscript.NewTxSigHashes(agg, fetcher)
+			for i, m := range members {
+				sd := adv[m].SignDetails.SignDesc
+				sd.SigHashes = hc
+				sd.InputIndex = i
+				sd.PrevOutputFetcher = fetcher
+				var (
+					w   wire.TxWitness
+					err error
+				)
+				if adv[m].Incoming {
+					w, err = input.ReceiverHtlcSpendRedeem(adv[m].SignDetails.PeerSig,
+						adv[m].SignDetails.SigHashType, adv[m].Preimage[:],
+						c.e.Signer(1-victim), &sd, agg)
+				} else {
+					w, err = input.SenderHtlcSpendTimeout(adv[m].SignDetails.PeerSig,
+						adv[m].SignDetails.SigHashType, c.e.Signer(1-victim), &sd, agg)
+				}
+				if err != nil {
+					valid = false
+					c.vc.Diag("cheater_aggregate_sign_error", fmt.Sprintf("%s %s: %v", ctx, c.p.TypeName, err))
+					break
+				}
+				agg.TxIn[i].Witness = w
+			}
+			for i, m := range members {
+				if !valid {
+					break
+				}
+				o := revokedTx.TxOut[adv[m].HtlcOut]
+				if err := lnwallet.VerifExec(o.PkScript, o.Value, agg, i, fetcher); err != nil {
+					valid = false
+					c.vc.Diag("cheater_aggregate_invalid", fmt.Sprintf("%s %s: %v", ctx, c.p.TypeName, err))
+					break
+				}
+			}
+			if !valid {
+				continue
+			}
+			c.vc.Count("second_level_aggregates", 1)
+			c.vc.Count("second_level_aggregated_htlcs", int64(len(members)))
+			for i, m := range members {
+				advs[m].tx, advs[m].idx = agg, uint32(i)
+			}
+		}
+	}
+	var spends []spend
+	seenTx := map[chainhash.Hash]bool{}
+	for _, a := range advs {
+		s := a.s
 		op := wire.OutPoint{Hash: txid, Index: s.HtlcOut}
 		found := -1
 		for i := range ret.breachedOutputs {
@@ -694,13 +798,16 @@ func (c *verifC04Case) secondLevel(ctx string, victim int, db *channeldb.DB,
 					ctx, op))
 			return false
 		}
-		h := s.Tx.TxHash()
+		h := a.tx.TxHash()
 		spends = append(spends, spend{index: found, detail: &chainntnfs.SpendDetail{
-			SpentOutPoint: &op, SpenderTxHash: &h, SpendingTx: s.Tx,
-			SpenderInputIndex: 0, SpendingHeight: verifC04BreachHeight + 1,
+			SpentOutPoint: &op, SpenderTxHash: &h, SpendingTx: a.tx,
+			SpenderInputIndex: a.idx, SpendingHeight: verifC04BreachHeight + 1,
 		}})
-		for i, o := range s.Tx.TxOut {
-			prev[wire.OutPoint{Hash: h, Index: uint32(i)}] = o
+		if !seenTx[h] {
+			seenTx[h] = true
+			for i, o := range a.tx.TxOut {
+				prev[wire.OutPoint{Hash: h, Index: uint32(i)}] = o
+			}
 		}
 	}
 	if c.vc.Guard("justice_build", "updateBreachInfo-panic/"+c.p.TypeName, ctx, func() {
@@ -709,26 +816,29 @@ func (c *verifC04Case) secondLevel(ctx string, victim int, db *channeldb.DB,
 		c.failed = true
 		return false
 	}
-	// Every advanced HTLC must now be pursued on the second-level output
-	// and no longer on the (spent) commitment output.
-	for _, s := range adv {
-		want := wire.OutPoint{Hash: s.Tx.TxHash(), Index: 0}
+	// Every advanced HTLC must now be pursued on ITS second-level output
+	// (the output the cheater's input pays: same index as the input) and no
+	// longer on the (spent) commitment output; no two breached outputs may
+	// pursue the same outpoint.
+	pursued := map[wire.OutPoint]int{}
+	for i := range ret.breachedOutputs {
+		pursued[ret.breachedOutputs[i].outpoint]++
+	}
+	for _, a := range advs {
+		s := a.s
+		want := wire.OutPoint{Hash: a.tx.TxHash(), Index: a.idx}
 		spent := wire.OutPoint{Hash: txid, Index: s.HtlcOut}
-		gotWant, gotSpent := false, false
-		for i := range ret.breachedOutputs {
-			switch ret.breachedOutputs[i].outpoint {
-			case want:
-				gotWant = true
-			case spent:
-				gotSpent = true
-			}
-		}
+		gotWant, gotSpent := pursued[want] == 1, pursued[spent] > 0
 		c.vc.Count("oracle_second_level_converted_evals", 1)
 		if !gotWant || gotSpent {
-			c.viol("second_level_converted", fmt.Sprintf("incoming=%v/%s", !s.Incoming, c.p.TypeName),
-				fmt.Sprintf("%s: after the cheater's second-level tx %v spent HTLC output %v the breached "+
-					"outputs pursue second-level output: %v, still the spent commitment output: %v",
-					ctx, s.Tx.TxHash(), spent, gotWant, gotSpent))
+			agg := ""
+			if len(a.tx.TxIn) > 1 {
+				agg = "/aggregated"
+			}
+			c.viol("second_level_converted", fmt.Sprintf("incoming=%v/%s%s", !s.Incoming, c.p.TypeName, agg),
+				fmt.Sprintf("%s: after the cheater's second-level tx %v (input %d of %d) spent HTLC output %v the breached "+
+					"outputs pursue second-level output %v %d times (want once), still the spent commitment output: %v",
+					ctx, a.tx.TxHash(), a.idx, len(a.tx.TxIn), spent, want, pursued[want], gotSpent))
 			return false
 		}
 	}
